@@ -6,8 +6,11 @@ package zzvenv
 
 import (
 	"errors"
+	"fmt"
 	"net"
+	"syscall"
 	"time"
+	"unsafe"
 
 	"github.com/google/gopacket"
 	"github.com/vishvananda/netlink"
@@ -39,6 +42,8 @@ type TPacket struct {
 	closed    *vs.Chan[struct{}]
 	isClosed  bool
 	Delivered int
+	krx, ktx  int // KernelBPF: a unix datagram pair whose receiving end carries the same filter
+	kbuf      []byte
 }
 
 // rxFrame: what the ring holds for one frame: the captured bytes (cut at the filter's snap length) and
@@ -86,6 +91,16 @@ type World struct {
 	WriteDelay func(n int) time.Duration
 	// OnWrite is called (inside the write step) after a frame was logged
 	OnWrite func(f *Frame)
+
+	// KernelBPF: every filter verdict of the BPF VM (accepted? how many bytes kept?) is compared with
+	// the running kernel's classic-BPF engine: the same instructions are attached (SO_ATTACH_FILTER)
+	// to the receiving end of an AF_UNIX datagram pair and the frame is sent through it. Needs no
+	// privilege. KernelSame counts agreeing verdicts, KernelDiff lists disagreements, KernelErr is
+	// set when the comparison could not be made (then nothing is counted).
+	KernelBPF  bool
+	KernelSame int
+	KernelDiff []string
+	KernelErr  error
 }
 
 var W *World
@@ -134,7 +149,68 @@ func (t *TPacket) SetBPF(ins []bpf.RawInstruction) error {
 		return err
 	}
 	t.vm, t.prog = vm, ins
+	if W.KernelBPF && W.KernelErr == nil {
+		W.KernelErr = t.attachKernel(ins)
+	}
 	return nil
+}
+
+func (t *TPacket) attachKernel(ins []bpf.RawInstruction) error {
+	t.closeKernel()
+	fds, err := syscall.Socketpair(syscall.AF_UNIX, syscall.SOCK_DGRAM|syscall.SOCK_NONBLOCK|syscall.SOCK_CLOEXEC, 0)
+	if err != nil {
+		return fmt.Errorf("socketpair: %v", err)
+	}
+	filt := make([]syscall.SockFilter, len(ins))
+	for i, in := range ins {
+		filt[i] = syscall.SockFilter{Code: in.Op, Jt: in.Jt, Jf: in.Jf, K: in.K}
+	}
+	prog := syscall.SockFprog{Len: uint16(len(filt)), Filter: &filt[0]}
+	if _, _, e := syscall.Syscall6(syscall.SYS_SETSOCKOPT, uintptr(fds[0]), syscall.SOL_SOCKET, syscall.SO_ATTACH_FILTER,
+		uintptr(unsafe.Pointer(&prog)), unsafe.Sizeof(prog), 0); e != 0 {
+		syscall.Close(fds[0])
+		syscall.Close(fds[1])
+		return fmt.Errorf("SO_ATTACH_FILTER: %v", e)
+	}
+	syscall.SetsockoptInt(fds[0], syscall.SOL_SOCKET, syscall.SO_RCVBUF, 1<<20)
+	syscall.SetsockoptInt(fds[1], syscall.SOL_SOCKET, syscall.SO_SNDBUF, 1<<20)
+	t.krx, t.ktx, t.kbuf = fds[0]+1, fds[1]+1, make([]byte, 1<<17)
+	return nil
+}
+
+func (t *TPacket) closeKernel() {
+	if t.krx > 0 {
+		syscall.Close(t.krx - 1)
+		syscall.Close(t.ktx - 1)
+		t.krx, t.ktx = 0, 0
+	}
+}
+
+// kernelKeeps: the number of bytes the kernel's filter engine lets through (0 = dropped).
+func (t *TPacket) kernelKeeps(frame []byte) (int, error) {
+	if _, err := syscall.Write(t.ktx-1, frame); err != nil {
+		return 0, fmt.Errorf("send: %v", err)
+	}
+	n, err := syscall.Read(t.krx-1, t.kbuf)
+	if err == syscall.EAGAIN {
+		return 0, nil
+	}
+	if err != nil {
+		return 0, fmt.Errorf("recv: %v", err)
+	}
+	for i := 0; i < n; i++ {
+		if t.kbuf[i] != frame[i] {
+			return n, fmt.Errorf("kernel delivered different bytes at offset %d", i)
+		}
+	}
+	return n, nil
+}
+
+// CloseKernel releases the comparison sockets of every socket of the world (end of an execution).
+func (w *World) CloseKernel() {
+	for _, s := range w.Socks {
+		s.closeKernel()
+	}
 }
 
 func (t *TPacket) Close() {
@@ -194,10 +270,20 @@ func (t *TPacket) Accepts(frame []byte) int {
 	if t.vm != nil {
 		k, err := t.vm.Run(frame)
 		if err != nil || k == 0 {
-			return 0
-		}
-		if k < keep {
+			keep = 0
+		} else if k < keep {
 			keep = k
+		}
+	}
+	if t.krx > 0 && len(frame) > 0 && W.KernelErr == nil {
+		kk, err := t.kernelKeeps(frame)
+		switch {
+		case err != nil:
+			W.KernelErr = err
+		case kk == keep:
+			W.KernelSame++
+		case len(W.KernelDiff) < 8:
+			W.KernelDiff = append(W.KernelDiff, fmt.Sprintf("frame %x: BPF VM keeps %d bytes, kernel keeps %d", frame, keep, kk))
 		}
 	}
 	return keep
